@@ -870,6 +870,7 @@ func init() {
 	addParts("C14", part{name: "u_srvdeadline", gen: genMixedSrvDeadline, monitors: []Monitor{monC14}, labels: commonLabels, nontrivial: ntAbnormalEnd, quick: 250, thorough: 8000})
 	union("C13", monC13, ntMultiRPC)
 	union("C14", monC14, ntAbnormalEnd)
+	addParts("C14", part{name: "u_rawsrv", gen: genRawServerShapes, monitors: []Monitor{monC14}, labels: labelsRaw, nontrivial: ntRawServer, quick: 300, thorough: 8000})
 	addParts("C14", part{name: "u_c12win", gen: genC12Win, monitors: []Monitor{monC14}, labels: labelsC12Win, nontrivial: ntC12Win, quick: 600, thorough: 20000})
 	addParts("C14", part{name: "u_c12", gen: genC12, monitors: []Monitor{monC14}, labels: labelsC12, nontrivial: func(c *Case, tr *Trace) bool { return len(c.Reg) > 3 }, quick: 250, thorough: 8000})
 }
